@@ -46,6 +46,8 @@ def build(repo):
         Rule("R6", "Self :: value ( value_node ) ?", "parse_value ( value_node ) ?", why="sub-parser abstract"),
         Rule("R6", "value . for_type ( & TypecheckFlags :: use_class ( input . user_data ( ) . get_type_of_executing_class ( ) , ) ) . to_err_vec ( ) ?", "value_for_type ( & value , the_class_of ( & input ) ) ?", why="type query abstract"),
         Rule("R1", "let class_type = input . user_data ( ) . get_type_of_executing_class ( ) ;", "", why="class for the comparison flags: folded into the abstract comparison"),
+        Rule("R6", "! expected_return_type . eq_complex ( & Cow :: Borrowed ( supplied_type ) , & TypecheckFlags :: use_class ( class_type ) , )",
+             "! ret_eq_complex ( expected_return_type , supplied_type , & input , false )", why="compatibility test abstract; no leniency flag"),
         Rule("R6", "! expected_return_type . eq_complex ( & Cow :: Borrowed ( supplied_type ) , & TypecheckFlags :: use_class ( class_type ) . lhs_unwrap ( $b ) , )",
              "! ret_eq_complex ( expected_return_type , supplied_type , & input , $b )", why="compatibility test abstract; its `lhs_unwrap` flag (an optional supplied type may stand for its payload) is kept visible"),
     ], log, "Parser::return_statement")
@@ -59,12 +61,11 @@ pub fn return_statement(input: Node, ud: &mut UD) -> (r: Result<ReturnStatement,
         (node_children(&input).len() == 0 && expected_return(&input) is Some) ==> r is Err,
         (node_children(&input).len() == 0 && expected_return(&input) is None) ==> r is Ok && r->Ok_0.0 is None,
         (node_children(&input).len() > 0 && expected_return(&input) is None) ==> r is Err,
-        // wants a value, gets one: accepted only if its type passed the compatibility test against the declared return type (under either reading
-        // of the optional-unwrapping flag of the comparison)
+        // wants a value, gets one: accepted only if its type passed the STRICT compatibility test against the declared return type (D86: with the
+        // optional-unwrap leniency a `[int?...]` was returned from `-> [int...]`)
         (r is Ok && node_children(&input).len() > 0) ==> expected_return(&input) is Some && r->Ok_0.0 is Some
             && type_of(&r->Ok_0.0->Some_0, the_class(&input)) is Some
-            && (ret_fits(expected_return(&input)->Some_0, resolved(type_of(&r->Ok_0.0->Some_0, the_class(&input))->Some_0), &input, false)
-                || ret_fits(expected_return(&input)->Some_0, resolved(type_of(&r->Ok_0.0->Some_0, the_class(&input))->Some_0), &input, true))
+            && ret_fits(expected_return(&input)->Some_0, resolved(type_of(&r->Ok_0.0->Some_0, the_class(&input))->Some_0), &input, false)
             // ... and a value that may be nil is never accepted where the declared type does not admit nil (`return x`, x: int?, from `-> int`: D40)
             && !(may_be_nil(resolved(type_of(&r->Ok_0.0->Some_0, the_class(&input))->Some_0)) && !may_be_nil(expected_return(&input)->Some_0)),
 {{
